@@ -165,10 +165,15 @@ TEXTS = {
                 "cache-based pruning never cuts a reachable target, None iff the target is neither the term nor an ancestor; path_to_ancestor "
                 "returns a chain of parent links ending in the target, of minimal length; and about the reference distance sd used by the "
                 "executable statement (a chain length, minimal over all chains; chains are walks). "
-                "PARTIAL: distance_to_term / path_to_term have no transcription-level theorem yet; spec_C11 compares every "
-                "distance the crate reports with sd over the reported parent links, distance_to_term with the minimum over common ancestors, "
-                "and checks every reported path link by link (a walk of exactly the reported distance); the transcription of the four queries "
-                "is diffed against the crate on ALL ordered pairs of each generated ontology and on selected pairs of 70-130-term chains.",
+                "distance_to_term is realised by two upward chains that meet, is the minimum over ALL meeting points, None iff there is none, "
+                "0 on a term with itself, and independent of the argument order; path_to_term between distinct terms is a walk along is_a "
+                "links (up, then down) ending in the target, no longer than any two upward chains that meet. The hypothesis of all of these "
+                "(qgood: unique ids, resolving links, sorted groups, exact ancestor caches) is PROVED to hold of every ontology any Builder "
+                "script produces, whatever calls fail on the way (C11_builder_ontologies_are_qgood). "
+                "spec_C11 compares every distance the crate reports with sd over the reported parent links, distance_to_term with the "
+                "minimum over common ancestors, and checks every reported path link by link (a walk of exactly the reported distance); the "
+                "transcription of the four queries is diffed against the crate on ALL ordered pairs of each generated ontology and on "
+                "selected pairs of 70-130-term chains. Not proved: that ontologies loaded from binary or JAX files are qgood (executed).",
         "design_ref": "DESIGN.md §4 C11, §9", "note": NOTE_COMMON + "Acyclic inputs only. Paths compared for validity and length, not identity.", "technique": TECH,
     },
     "C13": {
